@@ -565,6 +565,8 @@ fn destructure_top_level_ands(lvalue: EvaluatedLvalue) -> Vec<EvaluatedLvalue> {
 }
 
 pub fn evaluate(env: &Rc<RefCell<Env>>, expr: &LocExpr) -> NRes<Obj> {
+    #[cfg(betaveros_noulith_verif)]
+    verif::tick()?;
     match &expr.expr {
         Expr::Null => Ok(Obj::Null),
         Expr::IntLit64(n) => Ok(Obj::from(NInt::Small(*n))),
@@ -2895,6 +2897,8 @@ pub fn modify_every(
 
 impl Func {
     pub fn run(&self, env: &REnv, mut args: Vec<Obj>) -> NRes<Obj> {
+        #[cfg(betaveros_noulith_verif)]
+        verif::tick()?;
         match self {
             Func::Builtin(b) => b.run(env, args),
             Func::Closure(c) => c.run(args),
@@ -3183,6 +3187,8 @@ impl Func {
         }
     }
     pub fn run1(&self, env: &REnv, arg: Obj) -> NRes<Obj> {
+        #[cfg(betaveros_noulith_verif)]
+        verif::tick()?;
         match self {
             Func::Builtin(b) => b.run1(env, arg),
             Func::PartialApp1(f, x) => f.run2(env, (**x).clone(), arg),
@@ -3191,6 +3197,8 @@ impl Func {
         }
     }
     pub fn run2(&self, env: &REnv, arg1: Obj, arg2: Obj) -> NRes<Obj> {
+        #[cfg(betaveros_noulith_verif)]
+        verif::tick()?;
         match self {
             Func::Builtin(b) => b.run2(env, arg1, arg2),
             _ => self.run(env, vec![arg1, arg2]),
@@ -3268,3 +3276,45 @@ fn modify_every_lvalue(env: &Rc<RefCell<Env>>, expr: &Lvalue, f: &Func) -> NRes<
     }
 }
 */
+
+// Verification hook (off unless built with --cfg betaveros_noulith_verif): a deterministic
+// step budget so that a runaway evaluation ends as an ordinary error instead of a timeout.
+#[cfg(betaveros_noulith_verif)]
+pub mod verif {
+    use crate::core::{NErr, NRes};
+    use std::cell::Cell;
+
+    thread_local! {
+        static FUEL: Cell<u64> = Cell::new(u64::MAX);
+        static USED: Cell<u64> = Cell::new(0);
+        static EXHAUSTED: Cell<bool> = Cell::new(false);
+    }
+
+    // u64::MAX means unlimited. Resets the used counter and the exhausted flag.
+    pub fn set_fuel(n: u64) {
+        FUEL.with(|f| f.set(n));
+        USED.with(|u| u.set(0));
+        EXHAUSTED.with(|e| e.set(false));
+    }
+    pub fn fuel_used() -> u64 {
+        USED.with(|u| u.get())
+    }
+    pub fn exhausted() -> bool {
+        EXHAUSTED.with(|e| e.get())
+    }
+    pub fn tick() -> NRes<()> {
+        USED.with(|u| u.set(u.get().wrapping_add(1)));
+        FUEL.with(|f| {
+            let n = f.get();
+            if n == u64::MAX {
+                Ok(())
+            } else if n == 0 {
+                EXHAUSTED.with(|e| e.set(true));
+                Err(NErr::throw("fuel exhausted".to_string()))
+            } else {
+                f.set(n - 1);
+                Ok(())
+            }
+        })
+    }
+}
